@@ -10,6 +10,7 @@ Translated (Python ast -> Gallina over `string`, fail closed):
   INFLIGHT_PATH / TX_INFLIGHT_PATH    garbage_collector.INFLIGHT_PATH / transaction._INFLIGHT_PATH
                                       (+ `inflight_paths_equal : ... = ...` by eq_refl: the build breaks if they differ)
   DEFAULT_INFLIGHT_TIMEOUT_MS, DEFAULT_GRACE_MS (collect), TABLE_DEFAULT_GRACE_MS (Table.garbage_collect)
+  MARKERS_FIRST                       whether collect() loads the in-flight protection before it reads the metadata
 
 Pinned (hand-modelled in Model/GC.v): the control skeleton of collect / _load_inflight_protection /
 _gc_prefix / _marker_targets -- order of storage calls, try/except structure with what each handler does
@@ -300,9 +301,32 @@ def _norm_ws(s: str) -> str:
     return " ".join(s.split())
 
 
+LP_TOKENS = "call:_load_inflight_protection set:protected_files"
+
+
+def _movable(s: str) -> str:
+    """collect(): the call that loads the in-flight protection may sit before the metadata refresh (the repair planned for
+    C06) or after the reachability phase; both orders are modelled (GenNorm.MARKERS_FIRST). Logging-only `if`s are dropped."""
+    return _norm_ws(_norm_ws(s).replace(LP_TOKENS, " ").replace("if{ }else{ }", " "))
+
+
+def markers_first(fn: ast.FunctionDef) -> bool:
+    toks = _norm_ws(skeleton(fn)).split(" ")
+    try:
+        return toks.index("call:_load_inflight_protection") < toks.index("call:metadata_manager.refresh")
+    except ValueError:
+        raise Unsupported("collect: _load_inflight_protection / metadata_manager.refresh call not found")
+
+
 def check_skeleton(fn: ast.FunctionDef, key: str) -> None:
     got = _norm_ws(skeleton(fn))
-    if got not in [_norm_ws(g) for g in GOLDEN_SKELETONS[key]]:
+    if key == "collect":
+        if _norm_ws(got).count(LP_TOKENS) != 1:
+            raise Unsupported("collect: expected exactly one `protected_files = self._load_inflight_protection(...)`")
+        ok = _movable(got) in [_movable(g) for g in GOLDEN_SKELETONS[key]]
+    else:
+        ok = got in [_norm_ws(g) for g in GOLDEN_SKELETONS[key]]
+    if not ok:
         raise Unsupported(f"control skeleton of {fn.name} changed (hand-modelled in Model/GC.v; re-validate the model).\n"
                           f"  expected: {GOLDEN_SKELETONS[key][0]}\n  got:      {got}")
 
@@ -426,6 +450,7 @@ def gen_norm(src: str) -> str:
 
     # hand-modelled control structure: pinned
     check_skeleton(collect, "collect")
+    mfirst = markers_first(collect)
     check_skeleton(find_function(gc, "_load_inflight_protection", cls="GarbageCollector"), "_load_inflight_protection")
     check_skeleton(mt, "_marker_targets")
     check_skeleton(find_function(gc, "_gc_prefix", cls="GarbageCollector"), "_gc_prefix")
@@ -440,6 +465,9 @@ Definition INFLIGHT_PATH : string := {coq_str(inflight)}.
 Definition TX_INFLIGHT_PATH : string := {coq_str(tx_inflight)}.
 (* transaction._INFLIGHT_PATH must equal garbage_collector.INFLIGHT_PATH: checked by conversion *)
 Definition inflight_paths_equal : INFLIGHT_PATH = TX_INFLIGHT_PATH := eq_refl.
+
+(* collect(): is _load_inflight_protection called before metadata_manager.refresh()?  (Model/GC.v gc_run_from) *)
+Definition MARKERS_FIRST : bool := {"true" if mfirst else "false"}.
 
 Definition DEFAULT_INFLIGHT_TIMEOUT_MS : Z := ({timeout})%Z.
 Definition DEFAULT_GRACE_MS : Z := ({grace})%Z.
